@@ -1,8 +1,12 @@
 //! verif_core: generators, interpreters, oracles and campaign drivers for the
 //! property-based verification of cadence (see /verif/DESIGN.md).
 
+pub mod api;
+pub mod bytes;
 pub mod driver;
 pub mod fmt;
+pub mod fuzzdec;
+pub mod fuzzrun;
 pub mod known;
 pub mod macros_child;
 pub mod props;
